@@ -1,13 +1,44 @@
 """C01 - components run at most once, after their dependencies; seeds are never recomputed or overwritten."""
-from contracts.dr import M, TS
+import collections
+from contracts.dr import M, TS, Comp, RC_POST, TF_POST_GRAPH, RO_POST
+from pyvc.dsl import List, Map, Set, INT, Ref
 
 SIDECARS = ["dr"]
 UNITS = [
+    (TS, "toposort"),
+    (TS, "toposort_flatten"),
+    (M, "run_order"),
     (M, "Broker.__contains__"),
     (M, "Broker.__setitem__"),
     (M, "Broker.__getitem__"),
     (M, "Broker.get"),
     (M, "run_components"),
 ]
-LEMMAS = []
-NOT_CARRIED = ["a component body that itself writes Broker.instances (bodies are an assumed contract)"]
+
+# C01-L1: contracts only.  `ordered` is what run_order returned for `graph`; att/attpos is the attempt log that
+# run_components' postcondition describes for that order.
+_ro = [t.replace("old(graph)", "graph").replace("result", "ordered") for t in TF_POST_GRAPH if "lvl" not in t] + \
+      [t.replace("old(graph)", "graph").replace("result", "ordered") for t in RO_POST]
+_rc = [t.replace("ordered_components", "ordered").replace("old(broker.instances)", "seeds").replace("broker.instances", "final")
+       for t in RC_POST if "attidx" not in t]
+LEMMAS = [dict(
+    name="C01-L1",
+    module=M,
+    decls=collections.OrderedDict(graph=Map(Comp, Set(Comp)), ordered=List(Comp), att=List(Comp), attpos=List(INT),
+                                  seeds=Map(Comp, INT), final=Map(Comp, INT)),
+    hyps=_ro + _rc,
+    goals=[
+        # at most once
+        "distinct(att)",
+        # never before a declared dependency that takes part: such a dependency sits at an earlier position of the
+        # executed order, i.e. its loop iteration (run, skip or failure) is over
+        "forall(a, range(0, len(att)), forall(b, range(0, len(ordered)), "
+        "  implies(att[a] in graph and ordered[b] in graph[att[a]] and ordered[b] != att[a], b < attpos[a])))",
+        # seeds are not attempted and keep their value
+        "forall(j, range(0, len(att)), att[j] not in seeds)",
+        "forall(c, seeds, c in final and final[c] == seeds[c])",
+    ])]
+NOT_CARRIED = ["a component body that itself writes Broker.instances (bodies are an assumed contract)",
+               "dr.run's own body (argument normalisation and the SerializedArchiveContext pruning branch) is not under contract; "
+               "the lemma composes run_order and run_components as dr.run's last line does",
+               "get_dependency_graph / walk_dependencies (closure over mutable state): not under contract"]
